@@ -60,7 +60,7 @@ class C13(vlib.PropertyCheck):
         technique='Rocq theorems about an executable Gallina model of the helpers + extracted-model/implementation correspondence check',
         text=('Exactness and frame theorems (all sizes, sources, prior destination contents, index/count values of either sign, all '
               'byte strings) proved in Rocq about Gallina mirrors of spiftool_safe_strncpy/strncat/substr/downcase/upcase/safe_str; '
-              'chomp, condense_whitespace and strrev are modelled and tied by the correspondence check. The model is tied to the '
+              'chomp (= trim of both ends, frame incl. junk length), condense_whitespace (= collapse + strip, never longer) and strrev (= rev) are proved exact as well (Strings/HelpersProofs2.v), and the original `pbuff >= s` guard of condense_whitespace is proved to fault on the empty string (repaired in /repo). The model is tied to the '
               'current tree by running its extracted OCaml form and the ASan build of src/strings.c on the same exhaustively enumerated '
               'small cases (strings over {a, space, newline, 0x80, 0x01, A} and the high-bit twins 0xe1, 0xa0, 0x8a, 0xc1), every byte '
               'value through every helper, sizes/counts/lengths 2^k-1, 2^k, 2^k+1 up to 16385 and random long strings over all byte '
